@@ -423,7 +423,7 @@ def impl_floatenum(case):
     vdict = [[int(k), float(v)] for k, v in pobj.valuedict.items()]
     lo, hi = pobj.datatype.min, pobj.datatype.max
 
-    def snapshot(ok, write=None, exc=None):
+    def snapshot(ok, write=None, exc=None, assign=None):
         evs = []
         for par, val in updates(conn, 'm'):
             if par == '_x':
@@ -432,13 +432,13 @@ def impl_floatenum(case):
                 evs.append(['idx', int(val)])
         # what a client reads: the reply of a `read` request is the cache entry
         return {'idx': int(mod.parameters['x_idx'].value), 'value': float(pobj.value), 'evs': evs, 'ok': ok,
-                'exc': exc, 'write': write, 'selected': cur.get('selected')}
+                'exc': exc, 'write': write, 'assign': assign, 'selected': cur.get('selected')}
 
     trace = [snapshot(True)]
     for op in case['ops']:
         kind, via = op[0], op[-1]
         cur.clear()
-        ok, write, exc = True, None, None
+        ok, write, exc, assign = True, None, None, None
         try:
             if kind == 'writeFloat':
                 write = float(op[1])
@@ -470,13 +470,14 @@ def impl_floatenum(case):
                 mod.x_idx = op[1]
                 ok = mod.parameters['x_idx'].readerror is None
             elif kind == 'assignFloat':
+                assign = float(op[1])
                 mod.x = op[1]
                 ok = pobj.readerror is None
             else:
                 raise ValueError(kind)
         except Exception as e:
             ok, exc = False, EXC_NAMES.get(type(e).__name__)
-        trace.append(snapshot(ok, write, exc))
+        trace.append(snapshot(ok, write, exc, assign))
     return vdict, lo, hi, trace
 
 
@@ -504,7 +505,8 @@ def fe_requests(case, vdict, lo, hi, trace):
     wvd = [[i, sc(v)] for i, v in vdict]
     model = {'p': 'C18', 'k': 'floatenum', 'vdict': wvd, 'lo': sc(lo), 'hi': sc(hi), 'hasR': case['hasR'],
              'hasW': case['hasW'], 'idx0': trace[0]['idx'], 'ops': ops}
-    jtrace = [{'write': None if t['write'] is None else sc(t['write']), 'ok': t['ok'], 'selected': t['selected'],
+    jtrace = [{'write': None if t['write'] is None else sc(t['write']),
+               'assign': None if t.get('assign') is None else sc(t['assign']), 'ok': t['ok'], 'selected': t['selected'],
                'idx': t['idx'], 'value': sc(t['value']) if Fraction(t['value']) * den % 1 == 0 else None}
               for t in trace]
     # a value that is not on the grid of the case cannot be a value of the valuedict: keep it visible as lo - 1
@@ -669,27 +671,69 @@ def sig_floatenum(case, bad, trace):
 LSCALE = 4
 
 
+def limits_case(case):
+    """cases recorded before the class layout was part of a case (corpus): one class declaring everything, no check methods"""
+    if 'layers' in case:
+        return case
+    ops = [[op[0], op[1], [], op[2], op[3]] if op[0] == 'write' else op for op in case['ops']]
+    return dict(case, layers=[[case['has_min'], case['has_max'], case['has_limits'], False, False]], wlayer=0, ops=ops)
+
+
 def build_limits_class(case, cur):
+    """the class hierarchy of the case.  case['layers'] = the classes in MRO order (most derived first), each
+    [declares <p>_min, declares <p>_max, declares <p>_limits, defines check_<p>, is a plain mixin]; the last one declares <p>"""
     from frappy.core import FloatRange, IntRange, Module, Parameter, Writable
     from frappy.params import Limit
-    from frappy.errors import HardwareError
     p = case['pname']
+    layers = case['layers']
+    n = len(layers)
     lo, hi = case['lo'] / LSCALE, case['hi'] / LSCALE
     dt = IntRange(int(lo), int(hi)) if case['int'] else FloatRange(lo, hi)
-    ns = {p: Parameter('base', dt, readonly=False, default=case['value0'] / LSCALE)}
-    if p == 'target':
-        ns['value'] = Parameter('value', dt, default=case['value0'] / LSCALE)
-    for post in ('min', 'max', 'limits'):
-        if case['has_' + post]:
-            ns[f'{p}_{post}'] = Limit()
-    if case['hasW']:
-        def write_p(self, value):
-            w = cur.get('w')
-            if w is None or is_fail(w):
-                raise_kind(w)
-            return None if w == 'none' else w / LSCALE
-        ns['write_' + p] = write_p
-    return type('LimMod', (Writable if p == 'target' else Module,), ns)
+
+    def write_p(self, value):
+        w = cur.get('w')
+        if w is None or is_fail(w):
+            raise_kind(w)
+        return None if w == 'none' else w / LSCALE
+
+    def make_check(i):
+        def check(self, value):
+            c = cur.get('c') or []
+            out = c[i] if i < len(c) else 'pass'
+            if out == 'stop':
+                cur['stopAt'] = i
+                return True
+            if is_fail(out):
+                raise_kind(out)
+            return None
+        return check
+
+    def body(i):
+        dmin, dmax, dlim, own, _ = layers[i]
+        ns = {}
+        if i == n - 1:
+            ns[p] = Parameter('base', dt, readonly=False, default=case['value0'] / LSCALE)
+            if p == 'target':
+                ns['value'] = Parameter('value', dt, default=case['value0'] / LSCALE)
+        for post, decl in (('min', dmin), ('max', dmax), ('limits', dlim)):
+            if decl:
+                ns[f'{p}_{post}'] = Limit()
+        if own:
+            ns['check_' + p] = make_check(i)
+        if case['hasW'] and i == case['wlayer']:
+            ns['write_' + p] = write_p
+        return ns
+
+    cls = Writable if p == 'target' else Module
+    pending = []      # plain mixins, combined by the next class towards the module class
+    for i in reversed(range(n)):
+        if layers[i][4]:
+            pending.insert(0, type(f'LimMixin{i}', (), body(i)))
+        else:
+            cls = type(f'LimMod{i}', tuple(pending) + (cls,), body(i))
+            pending = []
+    assert not pending
+    return cls
 
 
 def impl_limits(case):
@@ -724,7 +768,7 @@ def impl_limits(case):
                 evs.append(['limits', sc(val[0]), sc(val[1])])
         return dict(rec, ok=ok, exc=exc, before=before, after=limits(), value=sc(getattr(mod, p)), evs=evs)
 
-    norec = {'write': None, 'echo': False, 'setLimits': None}
+    norec = {'write': None, 'echo': False, 'setLimits': None, 'stopAt': None}
     trace = [snapshot(True, limits(), norec)]
     for op in case['ops']:
         kind, via = op[0], op[-1]
@@ -734,9 +778,10 @@ def impl_limits(case):
         ok, exc = True, None
         try:
             if kind == 'write':
-                cur['w'] = op[2]
+                cur['c'] = op[2]
+                cur['w'] = op[3]
                 rec['write'] = op[1]
-                rec['echo'] = (not case['hasW']) or op[2] == 'none' or op[2] == op[1]
+                rec['echo'] = (not case['hasW']) or op[3] == 'none' or op[3] == op[1]
                 if via == 'req':
                     ok, exc = reply_outcome(node.request(conn, 'change', 'm:' + ex(p), op[1] / LSCALE))
                 else:
@@ -767,19 +812,23 @@ def impl_limits(case):
                 raise ValueError(kind)
         except Exception as e:
             ok, exc = False, EXC_NAMES.get(type(e).__name__)
+        rec['stopAt'] = cur.get('stopAt')      # observed: the check method at this MRO position returned True
         trace.append(snapshot(ok, before, rec, exc))
     return trace
 
 
+def wire_layers(case):
+    return [layer[:4] for layer in case['layers']]
+
+
 def wire_limits(case):
-    return {'p': 'C18', 'k': 'limits', 'lo': case['lo'], 'hi': case['hi'], 'hasMin': case['has_min'],
-            'hasMax': case['has_max'], 'hasLimits': case['has_limits'], 'hasW': case['hasW'],
+    return {'p': 'C18', 'k': 'limits', 'lo': case['lo'], 'hi': case['hi'], 'layers': wire_layers(case), 'hasW': case['hasW'],
             'value0': case['value0'], 'ops': [op[:-1] for op in case['ops']]}
 
 
-def judge_limits_req(trace):
-    keys = ('write', 'echo', 'setLimits', 'ok', 'before', 'after', 'value')
-    return {'p': 'C18', 'k': 'judge_limits', 'trace': [{k: t[k] for k in keys} for t in trace]}
+def judge_limits_req(case, trace):
+    keys = ('write', 'stopAt', 'echo', 'setLimits', 'ok', 'before', 'after', 'value')
+    return {'p': 'C18', 'k': 'judge_limits', 'layers': wire_layers(case), 'trace': [{k: t[k] for k in keys} for t in trace]}
 
 
 def limits_canon(case, t):
@@ -814,6 +863,20 @@ def gen_limits(rng, big):
     value0 = inside()
     pname = rng.choice(['target', 'a', 'ramp'])
     hasW = rng.random() < 0.6
+    # the class layout: 1..4 classes in MRO order, the last one declares <p>; every limit parameter is declared in some class
+    # (the class of <p>, a subclass, a plain mixin; now and then declared again further up), any class may define check_<p>
+    ncls = rng.choice([1, 1, 2, 2, 3, 3, 4])
+    layers = [[False, False, False, rng.random() < (0.15 if ncls == 1 else 0.3), 0 < i < ncls - 1 and rng.random() < 0.3]
+              for i in range(ncls)]
+    for k, post in enumerate(('min', 'max', 'limits')):
+        if has[post]:
+            layers[rng.randrange(ncls)][k] = True
+            if rng.random() < 0.1:
+                layers[rng.randrange(ncls)][k] = True
+    wlayer = rng.choice([i for i in range(ncls) if not layers[i][4]])
+
+    def checks():
+        return [rng.choice(['pass'] * 8 + [fail_tag(rng), 'stop']) if layer[3] else 'pass' for layer in layers]
     n = rng.randint(1, 30 if big else 12)
     ops = []
     for _ in range(n):
@@ -822,7 +885,7 @@ def gen_limits(rng, big):
         if r < 0.45:
             x = anyval()
             w = rng.choice(['none', 'none', x, fail_tag(rng), inside()])
-            ops.append(['write', x, w, via])
+            ops.append(['write', x, checks(), w, via])
         elif r < 0.55 and has['min']:
             ops.append(['writeMin', anyval(), via])
         elif r < 0.65 and has['max']:
@@ -845,9 +908,9 @@ def gen_limits(rng, big):
             ops.append(['assignLimits', a, b, 'drv'])
         else:
             x = anyval()
-            ops.append(['write', x, 'none', via])
+            ops.append(['write', x, checks(), 'none', via])
     return {'kind': 'limits', 'int': is_int, 'lo': lo, 'hi': hi, 'pname': pname, 'has_min': has['min'], 'has_max': has['max'],
-            'has_limits': has['limits'], 'hasW': hasW, 'value0': value0, 'ops': ops}
+            'has_limits': has['limits'], 'layers': layers, 'wlayer': wlayer, 'hasW': hasW, 'value0': value0, 'ops': ops}
 
 
 def sig_limits(case, bad, trace):
@@ -1017,8 +1080,9 @@ def prepare(case):
         model, judge, canon = fe_requests(case, vdict, lo, hi, trace)
         return trace, model, judge, canon
     if kind == 'limits':
+        case = limits_case(case)
         trace = impl_limits(case)
-        return trace, wire_limits(case), judge_limits_req(trace), [limits_canon(case, t) for t in trace]
+        return trace, wire_limits(case), judge_limits_req(case, trace), [limits_canon(case, t) for t in trace]
     if kind == 'control':
         trace = impl_control(case)
         ops = wire_control_ops(case)
@@ -1190,6 +1254,15 @@ def _run_chunk(ctx, res, cases, offset, ncorpus, shrunk):
             res.count('struct.layout-combined' if case['combined'] else 'struct.layout-permember')
         if kind == 'floatenum':
             res.count('floatenum.labels-si-scaled' if case.get('scaled') else 'floatenum.labels-catalogue')
+        if kind == 'limits':
+            lay = limits_case(case)['layers']
+            res.count(f'limits.classes-{len(lay)}')
+            res.count('limits.with-check-method' if any(x[3] for x in lay) else 'limits.no-check-method')
+            if any(x[4] for x in lay):
+                res.count('limits.with-mixin')
+            for t in trace[1:]:
+                if t['stopAt'] is not None:
+                    res.count('limits.check-returned-true')
         if nontrivial(case, trace):
             res.nontriv(case)
         if len(res.samples) < 6 and j >= ncorpus and len(case['ops']) <= 5 and nontrivial(case, trace) \
